@@ -1,7 +1,7 @@
 ----------------------------- MODULE TraceClone -----------------------------
 (***************************************************************************)
 (* Judge for copy observations (C19): [id, pre, post, after, n, result,    *)
-(* bij, root]  with pre/post/after = [par, ch, tgt, cls, foo] projections. *)
+(* bij, root, mut, leaf, extra]  with pre/post/after = [par, ch, tgt, cls, foo] projections. *)
 (* bij is the correspondence original -> copy found by the harness walking *)
 (* both structures in lock-step from (n, result).                          *)
 (***************************************************************************)
@@ -10,10 +10,10 @@ VARIABLE l
 Trace == ndJsonDeserialize(IOEnv.TRACE_FILE)
 C19_OK(e) ==
   /\ IsCopy(e.pre, e.post, e.n, e.bij, e.result)
-  \* mutating the copy (its result node detached) and the original (children of n's root deleted) does not cross over
-  /\ LET old == DOMAIN e.pre.par
-         s1 == IdealSP(e.post.par, e.post.ch, e.result, Nil)
-         s2 == IdealDC(s1.par, s1.ch, e.root) IN
+  \* mutating the copy (its result node detached) and the original (children of n's root deleted) does not cross over;
+  \* nor does extending the copy below one of its leaves (e.mut = "attach": the original was copied before anything read it)
+  /\ LET s1 == IdealSP(e.post.par, e.post.ch, e.result, Nil)
+         s2 == IF e.mut = "attach" THEN IdealSP(e.post.par, e.post.ch, e.extra, e.leaf) ELSE IdealDC(s1.par, s1.ch, e.root) IN
      e.after.par = s2.par /\ e.after.ch = s2.ch
 TInit == l = 1
 TNext == l <= Len(Trace) /\ PrintT(ToString(<<"J", l, Trace[l].id, IF C19_OK(Trace[l]) THEN {} ELSE {"C19"}>>)) /\ l' = l + 1
